@@ -621,6 +621,8 @@ def _check(run, wd, mods, farm, t_start):
     reps = 2 if quick else 6
     deep_reps = 10 if quick else 30
     pops = [c05.rec_op(r) for r in pool if _encodable(r)]
+    if quick:
+        pops = pops[::2]              # fixed stride (seed-independent); the children run all of them
     pops += [("format", s, "default") for s in (gen_used if quick else gen)]
     explicit = [("format", s, "default") for s in explicit_modules()]
     explicit += [("rule", q, src, tuple(a), dict(k)) for (q, src, a, k) in EXPLICIT_RULE_OPS]
@@ -866,7 +868,7 @@ def replay(path: str) -> int:
         try:
             op = tuple(c05.dec(x) for x in c05.dec(data["op"]))
             st, *rest = farm._one({"kind": "perturb", "ops": [op], "reps": 12, "seed": 0})
-            print("results over 12 perturbed runs:", Counter(json.dumps(r)[:300] for r in rest[0][0]) if st == "ok" else rest)
+            print("results over 12 perturbed runs:", Counter(json.dumps(r)[:300] for r in rest[0][0]["results"]) if st == "ok" else rest)
         finally:
             farm.close()
     elif kind in ("order-dependent-batch",):
@@ -877,6 +879,24 @@ def replay(path: str) -> int:
                                            "sequential": True, "safe": data.get("safe", False), "cwd": str(root),
                                            "n_cores": 1, "max_passes": 1}, 0)
             print("order", order, "->", json.dumps(o.get("tree", o), indent=1)[:1500])
+    elif kind == "schedule-dependent-tree":
+        cfgs = {"ref-1core-sorted": (1, 3, False, "sorted"), "2cores-shuffled": (2, 3, False, "shuffled"),
+                "4cores-shuffled": (4, 3, False, "shuffled"), "16cores-reversed": (16, 3, False, "reversed"),
+                "1pass-3cores": (3, 1, False, "shuffled"), "1pass-sequential": (1, 1, True, "sorted")}
+        outs = []
+        for ci, label in enumerate(data["configs"]):
+            n_cores, passes, sequential, how = cfgs[label]
+            names = sorted(data["tree"])
+            order = names if how == "sorted" else names[::-1] if how == "reversed" else random.Random(ci).sample(names, len(names))
+            root = wd / f"tree{ci}"
+            build_tree(root, data["tree"])
+            o = spawn_child(wd, f"t{ci}", {"repo": str(common.REPO), "mode": "files", "root": str(root), "files": order,
+                                           "n_cores": n_cores, "max_passes": passes, "sequential": sequential}, ci)
+            outs.append(o)
+            print(label, "-> return", o.get("ret"), o.get("error", ""))
+        if len(outs) == 2 and all("tree" in o for o in outs):
+            diff = [f for f in outs[0]["tree"] if outs[0]["tree"][f] != outs[1]["tree"].get(f)]
+            print("differing files now:", diff or "none")
     elif kind == "correspondence" and "groups" in (data.get("case") or {}):
         mods = common.import_impl()
         c = data["case"]
